@@ -1,7 +1,405 @@
 package main
 
-import "golang.org/x/tools/go/ssa"
+// Fill-loop acceleration (DESIGN.md section 1.4 and appendix B).
+//
+// A loop   for i := lo; i < N [&& i < M ...]; i++ { obj[i+c] = const }
+// is executed once for an arbitrary iteration k (lo <= k, all continuation
+// conditions assumed), which checks every run-time check of every iteration;
+// its effect is then applied as a `fill` layer and i := max(lo, min(N, M..)).
+// The pattern is verified on the executed iteration (terms), not on syntax.
 
-func (ex *Exec) tryAccelerate(fr *frame, block, prev *ssa.BasicBlock) (*ssa.BasicBlock, bool) {
-	return nil, false
+import (
+	"fmt"
+	"go/token"
+	"sync"
+
+	"golang.org/x/tools/go/ssa"
+)
+
+type accelBail struct{ why string }
+
+var accelReject sync.Map // *ssa.BasicBlock -> true : syntactically not a candidate
+
+type loopInfo struct {
+	blocks map[*ssa.BasicBlock]bool
+	back   *ssa.BasicBlock
+}
+
+func findLoop(h *ssa.BasicBlock) *loopInfo {
+	var back *ssa.BasicBlock
+	for _, p := range h.Preds {
+		if h.Dominates(p) {
+			if back != nil {
+				return nil // several back edges
+			}
+			back = p
+		}
+	}
+	if back == nil {
+		return nil
+	}
+	li := &loopInfo{blocks: map[*ssa.BasicBlock]bool{h: true}, back: back}
+	stack := []*ssa.BasicBlock{back}
+	for len(stack) > 0 {
+		b := stack[len(stack)-1]
+		stack = stack[:len(stack)-1]
+		if li.blocks[b] {
+			continue
+		}
+		li.blocks[b] = true
+		for _, p := range b.Preds {
+			stack = append(stack, p)
+		}
+	}
+	return li
+}
+
+func accelCandidate(h *ssa.BasicBlock) *loopInfo {
+	if _, rej := accelReject.Load(h); rej {
+		return nil
+	}
+	reject := func() *loopInfo { accelReject.Store(h, true); return nil }
+	nphi := 0
+	for _, ins := range h.Instrs {
+		if _, ok := ins.(*ssa.Phi); ok {
+			nphi++
+		}
+	}
+	if nphi != 1 {
+		return reject()
+	}
+	if _, ok := h.Instrs[len(h.Instrs)-1].(*ssa.If); !ok {
+		return reject()
+	}
+	li := findLoop(h)
+	if li == nil || len(li.blocks) > 4 {
+		return reject()
+	}
+	stores := 0
+	for b := range li.blocks {
+		for _, ins := range b.Instrs {
+			switch x := ins.(type) {
+			case *ssa.Phi, *ssa.BinOp, *ssa.Convert, *ssa.ChangeType, *ssa.FieldAddr, *ssa.IndexAddr, *ssa.Field, *ssa.If, *ssa.Jump, *ssa.DebugRef, *ssa.Extract:
+			case *ssa.UnOp:
+				if x.Op != token.MUL && x.Op != token.SUB && x.Op != token.XOR && x.Op != token.NOT {
+					return reject()
+				}
+			case *ssa.Store:
+				stores++
+			case *ssa.Call:
+				b, ok := x.Call.Value.(*ssa.Builtin)
+				if !ok || (b.Name() != "len" && b.Name() != "cap" && b.Name() != "min" && b.Name() != "max") {
+					return reject()
+				}
+			default:
+				return reject()
+			}
+			// values defined in the loop must not be used after it (except the induction phi)
+			if v, ok := ins.(ssa.Value); ok {
+				if _, isPhi := ins.(*ssa.Phi); !isPhi && v.Referrers() != nil {
+					for _, r := range *v.Referrers() {
+						if !li.blocks[r.Block()] {
+							return reject()
+						}
+					}
+				}
+			}
+		}
+	}
+	if stores == 0 {
+		return reject()
+	}
+	return li
+}
+
+type accelStore struct {
+	node *BytesNode
+	idx  *Term
+	val  *Term
+}
+
+func (ex *Exec) tryAccelerate(fr *frame, h, prev *ssa.BasicBlock) (next *ssa.BasicBlock, ok bool) {
+	li := accelCandidate(h)
+	if li == nil || li.blocks[prev] || ex.scratch {
+		return nil, false
+	}
+	tf := ex.tf
+	var phi *ssa.Phi
+	for _, ins := range h.Instrs {
+		if p, isPhi := ins.(*ssa.Phi); isPhi {
+			phi = p
+		}
+	}
+	w, signed, isInt := intWidth(phi.Type())
+	if !isInt || w != 64 {
+		return nil, false
+	}
+	pidx, bidx := -1, -1
+	for i, p := range h.Preds {
+		if p == prev {
+			pidx = i
+		}
+		if p == li.back {
+			bidx = i
+		}
+	}
+	if pidx < 0 || bidx < 0 {
+		return nil, false
+	}
+	initV, isI := ex.eval(fr, phi.Edges[pidx]).(IntV)
+	if !isI {
+		return nil, false
+	}
+	init := initV.T
+
+	// ----- scratch execution of one arbitrary iteration -----
+	savedPC := len(ex.pc)
+	savedViol := len(ex.violations)
+	ex.pendingNotes = nil
+	var addedFacts []int
+	savedFactsHook := ex.factJournal
+	ex.factJournal = &addedFacts
+	savedPos := ex.curPos
+	savedBounds := make(map[int]rng, len(ex.bounds))
+	for id, r := range ex.bounds {
+		savedBounds[id] = r
+	}
+	sfr := &frame{fn: fr.fn, locals: make(map[ssa.Value]Value, len(fr.locals)+16), visits: map[*ssa.BasicBlock]int{}, symDec: map[*ssa.BasicBlock]int{}}
+	for k, v := range fr.locals {
+		sfr.locals[k] = v
+	}
+	ex.accelSeq++
+	k := tf.Var(fmt.Sprintf("accel.iter#%d.%d", len(ex.decs), ex.accelSeq), 64)
+	sfr.locals[phi] = IntV{k}
+	var stores []accelStore
+	var conds []*Term
+	var exit *ssa.BasicBlock
+	restore := func() {
+		ex.pc = ex.pc[:savedPC]
+		for _, id := range addedFacts {
+			delete(ex.facts, id)
+		}
+		ex.factJournal = savedFactsHook
+		ex.scratch = false
+		ex.curPos = savedPos
+		ex.bounds = savedBounds
+		ex.rngMemo = nil
+	}
+	bailed := ""
+	func() {
+		defer func() {
+			if r := recover(); r != nil {
+				if b, isBail := r.(accelBail); isBail {
+					bailed = b.why
+					return
+				}
+				if _, isEnd := r.(pathEnd); isEnd {
+					// no iteration can execute (lo <= k and the conditions are contradictory): loop body is dead
+					bailed = "dead"
+					return
+				}
+				restore()
+				panic(r)
+			}
+		}()
+		ex.scratch = true
+		if signed {
+			ex.addPCj(tf.Sle(init, k))
+		} else {
+			ex.addPCj(tf.Ule(init, k))
+		}
+		cur := h
+		for steps := 0; ; steps++ {
+			if steps > 8 {
+				panic(accelBail{"loop too long"})
+			}
+			var nxt *ssa.BasicBlock
+			for _, ins := range cur.Instrs {
+				switch x := ins.(type) {
+				case *ssa.Phi, *ssa.DebugRef:
+				case *ssa.Store:
+					p, isP := ex.eval(sfr, x.Addr).(PtrV)
+					if !isP || !p.Elem {
+						panic(accelBail{"store to non-byte location"})
+					}
+					v, isV := ex.eval(sfr, x.Val).(IntV)
+					if !isV || !v.T.IsConst() {
+						panic(accelBail{"stored value not constant"})
+					}
+					stores = append(stores, accelStore{p.N.(*BytesNode), p.Idx, v.T})
+				case *ssa.UnOp:
+					if x.Op == token.MUL {
+						p := ex.eval(sfr, x.X).(PtrV)
+						if p.Elem {
+							panic(accelBail{"load of a byte inside the loop"})
+						}
+					}
+					ex.exec(sfr, ins)
+				case *ssa.If:
+					c := ex.eval(sfr, x.Cond).(BoolV).T
+					in0, in1 := li.blocks[cur.Succs[0]], li.blocks[cur.Succs[1]]
+					switch {
+					case in0 && !in1:
+						nxt = cur.Succs[0]
+						if exit != nil && exit != cur.Succs[1] {
+							panic(accelBail{"several exits"})
+						}
+						exit = cur.Succs[1]
+					case in1 && !in0:
+						c = tf.BNot(c)
+						nxt = cur.Succs[1]
+						if exit != nil && exit != cur.Succs[0] {
+							panic(accelBail{"several exits"})
+						}
+						exit = cur.Succs[0]
+					default:
+						panic(accelBail{"branch inside the loop"})
+					}
+					conds = append(conds, c)
+					if !ex.feasible(c) {
+						panic(pathEnd{"no iteration"})
+					}
+					ex.addPCj(c)
+					// iteration k > init runs only if iteration k-1 ran and continued
+					prevC := tf.Subst(c, k, tf.Sub(k, tf.Const(64, 1)), map[int]*Term{})
+					ex.addPCj(tf.BOr(tf.Eq(k, init), prevC))
+				case *ssa.Jump:
+					nxt = cur.Succs[0]
+				default:
+					ex.exec(sfr, ins)
+				}
+			}
+			if nxt == h {
+				break
+			}
+			if nxt == nil || !li.blocks[nxt] {
+				panic(accelBail{"left the loop"})
+			}
+			cur = nxt
+		}
+	}()
+	var incr Value
+	if bailed == "" {
+		incr = sfr.locals[phi.Edges[bidx]]
+		if c, isC := phi.Edges[bidx].(*ssa.Const); isC {
+			incr = ex.constVal(c)
+		}
+	}
+	restore()
+	notes := ex.pendingNotes
+	ex.pendingNotes = nil
+	giveUp := func() (*ssa.BasicBlock, bool) {
+		// obligations examined for the arbitrary iteration are only meaningful if the loop is really
+		// replaced; otherwise normal unrolling examines them with the exact iteration values
+		ex.violations = ex.violations[:savedViol]
+		return nil, false
+	}
+	if bailed != "" {
+		return giveUp()
+	}
+	iv, isI2 := incr.(IntV)
+	if !isI2 || iv.T != tf.Add(k, tf.Const(64, 1)) {
+		return giveUp()
+	}
+	if exit == nil || len(conds) == 0 {
+		return giveUp()
+	}
+	for _, ins := range exit.Instrs {
+		if _, isPhi := ins.(*ssa.Phi); isPhi {
+			return giveUp()
+		}
+	}
+	// every continuation condition must be  k + d < N  with constant d and N independent of k
+	var bounds []*Term                       // N - d for each condition
+	splitKD := func(t *Term) (int64, bool) { // t == k + d ?
+		if t == k {
+			return 0, true
+		}
+		dd := tf.Sub(t, k)
+		if dd.IsConst() && dd.SVal() >= -4096 && dd.SVal() <= 4096 {
+			return dd.SVal(), true
+		}
+		return 0, false
+	}
+	for _, c := range conds {
+		var lhs, n *Term
+		switch {
+		case signed && c.op == OpSlt:
+			lhs, n = c.args[0], c.args[1]
+		case !signed && c.op == OpUlt:
+			lhs, n = c.args[0], c.args[1]
+		case signed && c.op == OpBNot && c.args[0].op == OpSle:
+			lhs, n = c.args[0].args[1], c.args[0].args[0] // !(N <= k)
+		case !signed && c.op == OpBNot && c.args[0].op == OpUle:
+			lhs, n = c.args[0].args[1], c.args[0].args[0]
+		default:
+			return giveUp()
+		}
+		d, okd := splitKD(lhs)
+		if !okd || n.HasVar(k) {
+			return giveUp()
+		}
+		if d != 0 {
+			// k + d must not wrap: N is a length-like quantity
+			r := ex.rangeOf(n)
+			if r.lo < -(1<<60) || r.hi > 1<<60 {
+				return giveUp()
+			}
+			n = tf.Sub(n, tf.Const(64, uint64(d)))
+		}
+		bounds = append(bounds, n)
+	}
+	lt := func(a, b *Term) *Term {
+		if signed {
+			return tf.Slt(a, b)
+		}
+		return tf.Ult(a, b)
+	}
+	N := bounds[0]
+	for _, b := range bounds[1:] {
+		N = tf.Ite(lt(b, N), b, N)
+	}
+	kEnd := N
+	type fillOp struct {
+		node *BytesNode
+		d    *Term
+		val  *Term
+	}
+	var fills []fillOp
+	for _, s := range stores {
+		d := tf.Sub(s.idx, k)
+		if d.HasVar(k) {
+			return giveUp()
+		}
+		fills = append(fills, fillOp{s.node, d, s.val})
+	}
+	nonEmpty := lt(init, N)
+	for _, f := range fills {
+		ex.bytesFill(f.node, nonEmpty, tf.Add(init, f.d), tf.Add(N, f.d), f.val)
+	}
+	for _, n := range notes {
+		ex.eng.noteObligation(n.sig, n.res, n.who)
+	}
+	fr.locals[phi] = IntV{tf.Ite(nonEmpty, kEnd, init)}
+	ex.accel = append(ex.accel, fmt.Sprintf("%s (%s)", ex.posStr(phi.Pos()), fr.fn.String()))
+	// the header's own non-phi instructions define values that the exit block may not use (checked), so skip them
+	return exit, true
+}
+
+// addPCj adds a conjunct to the path condition and journals the fact for later removal.
+func (ex *Exec) addPCj(c *Term) {
+	if c.IsTrue() || ex.facts[c.id] {
+		return
+	}
+	ex.pc = append(ex.pc, c)
+	ex.learn(c)
+}
+
+func (ex *Exec) setFact(id int) {
+	if !ex.facts[id] {
+		ex.facts[id] = true
+		if ex.factJournal != nil {
+			*ex.factJournal = append(*ex.factJournal, id)
+		}
+	}
 }
